@@ -40,7 +40,7 @@ def scenarios(tier):
     return out
 
 
-def _world(W, p, frames_at, rel_steps, tmp, subgrid=None, relcols=("release_time", "X", "Y", "Z"), per_file=None, frame_secs=None, stop_extra=0, dims=None):
+def _world(W, p, frames_at, rel_steps, tmp, subgrid=None, relcols=("release_time", "X", "Y", "Z"), per_file=None, frame_secs=None, stop_extra=0, dims=None, mults=None):
     """files + configuration for one set-up; frames_at / rel_steps in simulation steps (frame_secs: the same in seconds, for
     frames off the step grid; stop_extra: seconds by which the duration exceeds a whole number of steps)"""
     if frame_secs is None:
@@ -69,6 +69,8 @@ def _world(W, p, frames_at, rel_steps, tmp, subgrid=None, relcols=("release_time
     rows = []
     for s in rel_steps:
         row = [W.dt(T0 + sgn * s * DT)] + ([3, 3, 5] if "X" in relcols else [5])
+        if mults is not None:
+            row.append(mults[len(rows)])
         rows.append(row)
     W.table(tmp / "r.rls", list(relcols), rows)
     log = []
@@ -136,6 +138,12 @@ def run(W, p):
             W.assume(W.all([W.any([W.lt(r, 0), W.le(3, r)]) for r in (r0, r1)]), "no row inside the window")
         cfg, log = _world(W, p, good_frames, [r0, r1], tmp2)
         clause = "release-window"
+        # the same when the only rows inside the window release nothing (mult = 0)
+        (tmp2 / "m0").mkdir()
+        cfg0, log0 = _world(W, p, good_frames, [1], tmp2 / "m0", relcols=("release_time", "X", "Y", "Z", "mult"), mults=[0])
+        refused0, exc0, nrec0 = _attempt(W, cfg0, log0)
+        W.prove(refused0, clause, dict(case="only a mult = 0 row inside the window", exception=exc0))
+        W.prove(nrec0 == 0, "no-output", dict(case="only a mult = 0 row inside the window", records=nrec0))
     elif fault == "time":
         clause = "time-setup"
         res = []
@@ -169,9 +177,21 @@ def run(W, p):
         return ("release-position",)
     elif fault == "files":
         clause = "files-and-sections"
-        for case in ("grid", "forcing", "warm", "config"):
+        for case in ("grid", "forcing", "warm", "config", "module"):
             (tmp2 / case).mkdir()
             cfg, log = _world(W, p, good_frames, good_rel, tmp2 / case)
+            if case == "module":
+                # a plug-in module file that does not exist: refused, and with a non-zero exit status
+                cfg["ibm"] = dict(module=str(tmp2 / "no_such_ibm.py"))
+                try:
+                    build_model(W, cfg)
+                    status = "accepted"
+                except SystemExit as e:
+                    status = e.code
+                except Exception as e:  # noqa
+                    status = type(e).__name__
+                W.prove(status not in ("accepted", None, 0), clause, dict(case=case, exit_status=status, note="the start-up stops but reports success"))
+                continue
             if case == "grid":
                 cfg["grid"]["filename"] = str(tmp2 / "nogrid.nc")
             elif case == "forcing":
